@@ -568,7 +568,11 @@ def features(steps):
         elif k == "l":
             f.add("symlink-entry" if target(p) in kinds or target(p) == "." else "dangling-symlink-entry")
 
+    addtrue = {}       # TRUE current path of everything the user added -> the name it was added under
+
     def move(a, b):
+        for q in [q for q in list(addtrue) if q == a or q.startswith(a + "/")]:
+            addtrue[b + q[len(a):]] = addtrue.pop(q)
         for q in [q for q in list(kinds) if q == b or q.startswith(b + "/") or q == b + "@"]:
             del kinds[q]
         for q in [q for q in list(kinds) if q == a or q.startswith(a + "/") or q == a + "@"]:
@@ -616,7 +620,7 @@ def features(steps):
                 a, b = w[2], w[3]
                 if a not in kinds:
                     continue
-                if a in adds and kinds.get(a) == "d":
+                if (a in adds or a in addtrue) and kinds.get(a) == "d":
                     f.add("watched-dir-renamed")
                 if b in adds and kinds.get(b) in ("f", "l", "p"):
                     f.add("watched-file-overwritten")
@@ -665,6 +669,8 @@ def features(steps):
                 elif k is None and c != ".":
                     f.add("missing-path-added")
                 adds.append(c)
+                if k is not None:
+                    addtrue[c] = c
                 if k == "d" or c == ".":
                     adddirs.add(c)
                 for q in list(kinds):
